@@ -1,9 +1,95 @@
 /-
 C09, property theorems about the TRANSLATED cryptobyte-based decoders (part Small; see DESIGN.md 12.4).
 Same namespace as Props/C09.lean; listed in checks/C09.json under extra_props_files.
+
+`Gotlcp.Src.tlcp.codec.*` / `Gotlcp.Src.dtlcp.codec.*` are regenerated from {tlcp,dtlcp}/handshake_messages.go
+by `harness/cmd/go2lean` on every run; `.error` in them is a Go run-time panic (index / slice out of range,
+negative `make`) or an exhausted loop bound.  For every receiver value and EVERY byte string (no bound on the
+length is needed: the only `int` conversions are of 8/16/24/32-bit lengths) each function of this part returns
+`.ok _`; none of them has a loop, so "cannot spin" is immediate; what they allocate is bounded by the input.
+Proofs: `Gotlcp.Tie.CodecSmall`, `Gotlcp.Tie.CodecSmallDtlcp` (closed forms).
 -/
-import Gotlcp.Tie.CbString
+import Gotlcp.Tie.CodecSmall
+import Gotlcp.Tie.CodecSmallDtlcp
 
 namespace Gotlcp.Props.C09
+open Gotlcp
+
+/-- tlcp `finishedMsg.unmarshal`: no panic; an accepted verify_data is the input without its 4-byte header (the
+24-bit length of the header is the length prefix of the vector) -/
+theorem C09_src_no_panic_finishedMsg_unmarshal_tlcp (m : Src.tlcp.codec.finishedMsg) (data : List (BitVec 8)) :
+    ∃ m' ok, Src.tlcp.codec.finishedMsg.unmarshal m data = .ok (m', ok) ∧
+      (ok = true → m'.verifyData.length + 4 = data.length) := by
+  refine ⟨_, _, Tie.CodecSmall.finished_eq m data, ?_⟩
+  exact Tie.CodecSmall.finSpec_len m data
+
+/-- tlcp `certificateVerifyMsg.unmarshal`: no panic; an accepted signature is 6 bytes shorter than the input -/
+theorem C09_src_no_panic_certificateVerifyMsg_unmarshal_tlcp (m : Src.tlcp.codec.certificateVerifyMsg)
+    (data : List (BitVec 8)) :
+    ∃ m' ok, Src.tlcp.codec.certificateVerifyMsg.unmarshal m data = .ok (m', ok) ∧
+      (ok = true → m'.signature.length + 6 = data.length) := by
+  refine ⟨_, _, Tie.CodecSmall.certificateVerify_eq m data, ?_⟩
+  exact Tie.CodecSmall.cvSpec_len m data
+
+/-- `readUint64` (tlcp) -/
+theorem C09_src_no_panic_readUint64_tlcp (s : List (BitVec 8)) (out : BitVec 64) :
+    ∃ r, Src.tlcp.codec.readUint64 s out = .ok r := ⟨_, Tie.CodecSmall.readUint64_eq s out⟩
+
+/-- `readUint64` (dtlcp) -/
+theorem C09_src_no_panic_readUint64_dtlcp (s : List (BitVec 8)) (out : BitVec 64) :
+    ∃ r, Src.dtlcp.codec.readUint64 s out = .ok r := ⟨_, Tie.CodecSmall.readUint64_eq s out⟩
+
+/-- `dtlcpUnmarshalHeader`: the unchecked-looking `s[:fragmentLength]` is guarded by the comparison in front of
+it; the body it returns is never longer than what follows the header -/
+theorem C09_src_no_panic_dtlcpUnmarshalHeader_dtlcp (data : List (BitVec 8)) :
+    ∃ t bl seq fo fl body ok, Src.dtlcp.codec.dtlcpUnmarshalHeader data = .ok (t, bl, seq, fo, fl, body, ok) ∧
+      body.length ≤ data.length - 12 := by
+  obtain ⟨t, bl, seq, fo, fl, body, ok, h, hiff, hok, hno⟩ := Tie.CodecSmallDtlcp.unmarshalHeader_spec data
+  refine ⟨t, bl, seq, fo, fl, body, ok, h, ?_⟩
+  cases ok with
+  | false => rw [(hno rfl).2.2.2.2.2]; simp
+  | true =>
+    obtain ⟨_, _, _, _, _, _, _, _, hb⟩ := hok rfl
+    rw [hb]
+    split
+    · simp
+    · rw [List.length_take, List.length_drop]; omega
+
+/-- dtlcp `finishedMsg.unmarshal`: `make([]byte, bodyLen)` takes its size from the peer's header, but behind the
+guard `bodyLen` is `len(data) - 12`, and more than `maxHandshake` is refused before the allocation -/
+theorem C09_src_no_panic_finishedMsg_unmarshal_dtlcp (m : Src.dtlcp.codec.finishedMsg) (data : List (BitVec 8)) :
+    ∃ m' ok, Src.dtlcp.codec.finishedMsg.unmarshal m data = .ok (m', ok) ∧
+      (ok = true → m'.verifyData.length + 12 = data.length ∧ m'.verifyData.length ≤ 65536) := by
+  refine ⟨_, _, Tie.CodecSmallDtlcp.finished_eq m data, ?_⟩
+  exact Tie.CodecSmallDtlcp.finSpec_len m data
+
+/-- dtlcp `certificateVerifyMsg.unmarshal` -/
+theorem C09_src_no_panic_certificateVerifyMsg_unmarshal_dtlcp (m : Src.dtlcp.codec.certificateVerifyMsg)
+    (data : List (BitVec 8)) :
+    ∃ m' ok, Src.dtlcp.codec.certificateVerifyMsg.unmarshal m data = .ok (m', ok) ∧
+      (ok = true → m'.signature.length + 14 = data.length) := by
+  refine ⟨_, _, Tie.CodecSmallDtlcp.certificateVerify_eq m data, ?_⟩
+  exact Tie.CodecSmallDtlcp.cvSpec_len m data
+
+/-- dtlcp `helloVerifyRequestMsg.unmarshal` -/
+theorem C09_src_no_panic_helloVerifyRequestMsg_unmarshal_dtlcp (m : Src.dtlcp.codec.helloVerifyRequestMsg)
+    (data : List (BitVec 8)) :
+    ∃ m' ok, Src.dtlcp.codec.helloVerifyRequestMsg.unmarshal m data = .ok (m', ok) ∧
+      (ok = true → m'.cookie.length + 15 = data.length ∧ m'.cookie.length < 256) := by
+  refine ⟨_, _, Tie.CodecSmallDtlcp.helloVerifyRequest_eq m data, ?_⟩
+  exact Tie.CodecSmallDtlcp.hvrSpec_len m data
+
+-- non-vacuity: a body length of 2^24-1 announced in a 12-byte message is refused by the guard (no allocation) …
+example : Src.dtlcp.codec.finishedMsg.unmarshal {} [20, 0xff, 0xff, 0xff, 0, 0, 0, 0, 0, 0xff, 0xff, 0xff] =
+    .ok ({}, false) := by
+  rw [Tie.CodecSmallDtlcp.finished_eq]; exact congrArg Except.ok (by decide)
+-- … a CertificateVerify whose inner length points past the end is refused without a panic …
+example : Src.tlcp.codec.certificateVerifyMsg.unmarshal {} [15, 0, 0, 3, 0xff, 0xff, 1] =
+    .ok ({ raw := [15, 0, 0, 3, 0xff, 0xff, 1] }, false) := by
+  rw [Tie.CodecSmall.certificateVerify_eq]; exact congrArg Except.ok (by decide)
+-- … and an accepted one
+example : Src.tlcp.codec.certificateVerifyMsg.unmarshal {} [15, 0, 0, 3, 0, 1, 0xcc] =
+    .ok ({ raw := [15, 0, 0, 3, 0, 1, 0xcc], signature := [0xcc] }, true) := by
+  rw [Tie.CodecSmall.certificateVerify_eq]; exact congrArg Except.ok (by decide)
 
 end Gotlcp.Props.C09
